@@ -204,7 +204,14 @@ func (p *Path) decide(c *Term) bool {
 	p.queries += 2
 	rt, rf := p.sol.CheckBoth(c)
 	if rt == Unknown || rf == Unknown {
+		// an undecided branch cannot be explored soundly (and every later query on
+		// this path would time out as well): the path is incomplete, the run is not a pass
 		p.eng.noteUnknownBranch()
+		where := ""
+		if p.cur != nil && p.cur.top != nil {
+			where = posOf(p, p.cur.top.curInstr)
+		}
+		p.endPath(OutIncomplete, "solver unknown at a branch: "+where)
 	}
 	tOK, fOK := rt != Unsat, rf != Unsat
 	switch {
